@@ -155,11 +155,12 @@ def check_spline(case, ctx):
     d_arg = d
     if d.size and np.all(d == np.round(d)) and np.all(np.abs(d) < 2.0**53) and vbuild.plain_flag(case):
         d_arg = d.astype("int64")  # whole-number data handed over with an integer dtype
+    stacked = vbuild.maybe_stack((np.asarray(e, dtype="float64"), np.asarray(n, dtype="float64")), vbuild.stack_flag(case))
     if case.get("weighted"):
-        quiet(sp.fit, (e, n), d_arg, 1.0 + (np.arange(d.size) % 5).reshape(d.shape))
+        quiet(sp.fit, stacked, d_arg, 1.0 + (np.arange(d.size) % 5).reshape(d.shape))
     else:
-        quiet(sp.fit, (e, n), d_arg)
-    pred = np.asarray(sp.predict((e, n)))
+        quiet(sp.fit, stacked, d_arg)
+    pred = np.asarray(sp.predict(stacked))
     ctx.check(pred.shape == d.shape, "prediction shape %s, data shape %s", pred.shape, d.shape)
     scale = float(np.max(np.abs(d)))
     err = float(np.max(np.abs(pred - d))) if d.size else 0.0
@@ -210,8 +211,9 @@ def check_vector(case, ctx):
 # ---------------------------------------------------------------- KNeighbors(k=1)
 def check_knn(case, ctx):
     e, n, (d,) = arrays_of(case)
-    kn = vd.KNeighbors().fit((e, n), d)
-    pred = np.asarray(kn.predict((e, n)))
+    stacked = vbuild.maybe_stack((np.asarray(e, dtype="float64"), np.asarray(n, dtype="float64")), vbuild.stack_flag(case))
+    kn = vd.KNeighbors().fit(stacked, d)
+    pred = np.asarray(kn.predict(stacked))
     ctx.check(pred.shape == d.shape, "prediction shape %s, data shape %s", pred.shape, d.shape)
     if not np.array_equal(pred, d):
         bad = np.argwhere(pred != d)[0]
